@@ -9,12 +9,19 @@ def op_chains(rng, q, focus):
     nrec = {"C13": 150, "C14": 120, "C15": 80}[focus] * (1 if q else 8)
     for _ in range(nrec):
         rec = rd.random_record(rng, alphabet="ACGT" if rng.random() < 0.8 else "ACGTacgtRYN")
+        if rng.random() < 0.2:      # periodic words: rotation by a period leaves the letters but not the annotations in place
+            from Bio.Seq import Seq
+            unit = gen.rnd(rng.randint(1, 4), rng)
+            reps = rng.randint(2, 5)
+            rec2 = rd.random_record(rng, n=len(unit) * reps)
+            rec2.seq = Seq(unit * reps)
+            rec = rec2
         n = len(rec.seq)
         ops = []
         for _ in range(rng.randint(2, 6)):
             x = rng.random()
             if x < (0.55 if focus == "C13" else 0.3):
-                k = rng.choice([0, 1, n - 1, n, n + 1, 2 * n, -1, -n, -n - 2, rng.randrange(-2 * n, 2 * n + 1), n // 2])
+                k = rng.choice([0, 1, n - 1, n, n + 1, 2 * n, -1, -n, -n - 2, rng.randrange(-2 * n, 2 * n + 1), n // 2, 2, 3, 4, n // 3])
                 ops.append((rng.choice("RL"), k))
             elif x < (0.7 if focus != "C15" else 0.4):
                 ops.append(("RC",))
